@@ -258,7 +258,15 @@ class QuadricTensor(ProjectiveTensor, ABC):
     @property
     def dual(self) -> QuadricTensor:
         """The dual quadric."""
-        return type(self)(inv(self.array), is_dual=not self.is_dual, copy=False)
+        # subclasses such as Circle or Sphere have constructors with a different signature
+        cls: type[QuadricTensor]
+        if self.free_indices > 0:
+            cls = QuadricCollection
+        elif isinstance(self, Conic):
+            cls = Conic
+        else:
+            cls = Quadric
+        return cls(inv(self.array), is_dual=not self.is_dual, copy=False)
 
 
 class Quadric(QuadricTensor, BoundTensor):
